@@ -289,6 +289,15 @@ func (cc *Consensus) Trust(ctx context.Context, pid peer.ID) error { return nil 
 func (cc *Consensus) Distrust(ctx context.Context, pid peer.ID) error { return nil }
 
 func (cc *Consensus) op(ctx context.Context, pin *api.Pin, t LogOpType) *LogOp {
+	if pin != nil && pin.Reference != nil && !pin.Reference.Defined() {
+		// A reference to the undefined CID (what the first shard of a
+		// sharded add carries) is encoded as an empty value that
+		// no peer can decode back: the FSM would drop the whole log
+		// entry after it was committed. It means "no reference".
+		noRef := *pin
+		noRef.Reference = nil
+		pin = &noRef
+	}
 	return &LogOp{
 		Cid:  pin,
 		Type: t,
